@@ -246,7 +246,18 @@ func c08Stream(r *hx.Rand, tier string, n int, w *bufio.Writer) map[string]int {
 					stats["op-revoke"]++
 					emit(l)
 				case kind == 9 && genuine != nil && genuine.idToken != "": // logout with the id token as hint
-					q := url.Values{"id_token_hint": {genuine.idToken}}
+					hint := genuine.idToken
+					if r.Chance(45) {
+						// an EXPIRED but validly signed ID token of this provider is still a valid logout hint
+						now := time.Now().Unix()
+						claims := fmt.Sprintf(`{"iss":"%s","sub":"%s","aud":["%s"],"azp":"%s","exp":%d,"iat":%d,"auth_time":%d}`,
+							opbed.Issuer, genuine.subject, genuine.client, genuine.client, now-3600, now-7200, now-7200)
+						if exp, err := hx.Sign(bed.SignKey, bed.Cfg.SignAlg, "sig1", []byte(claims)); err == nil {
+							hint = exp
+							stats["endsession-expired-hint"]++
+						}
+					}
+					q := url.Values{"id_token_hint": {hint}}
 					resp := bed.Do(bed.Get("/end_session", q, ""))
 					terminated := false
 					for _, j := range resp.Journal {
